@@ -20,25 +20,24 @@ package roaring
 //@ contract (*Container).arrayToBitmap props C01,C02,C03
 //@   requires wfArrN(c)
 //@   modifies c.flags, c.pointer, c.len, c.cap, c.data, c.typeID, c.n, c.$arr, c.$runs, c.$bm, elems(c.$arr), elems(c.$runs), elems(c.$bm)
-//@   ensures result != nil ==> (result.$arr.ref == 0 || result.$arr.ref == old(c.$arr.ref) || fresh(result.$arr)) && (result.$runs.ref == 0 || result.$runs.ref == old(c.$runs.ref) || fresh(result.$runs)) && (result.$bm.ref == 0 || result.$bm.ref == old(c.$bm.ref) || fresh(result.$bm))
-//@   ensures result == nil || result == c || fresh(result)
 //@   ensures result != nil && wfBm(result) && result.n == old(c.n)
 //@   ensures forall x :: u16(x) ==> (memBm(result.$bm, x) <==> old(memArr(c.$arr, x)))
-//@   ensures (old(c.flags) & 2) != 0 ==> fresh(result) && result.flags == 0
+//@   ensures (old(c.flags) & 2) != 0 ==> fresh(result) && result.flags == 0 && result.$arr.ref == 0 && result.$runs.ref == 0
 //@   ensures (old(c.flags) & 2) != 0 ==> c.typeID == 1 && c.$arr == old(c.$arr)
 //@   ensures (old(c.flags) & 2) != 0 ==> unchanged(c.$arr)
 //@   ensures (old(c.flags) & 2) == 0 ==> result == c
 //@   ensures (result.flags & 2) == 0 || fresh(result)
-//@   loop 1 invariant len(bitmap) == 1024 && fresh(bitmap) && bitmap.off == 0 && 0 <= $i + 1 && $i + 1 <= len(c.$arr) && unchanged(c.$arr)
+//@   loop 1 invariant len(bitmap) == 1024 && fresh(bitmap) && bitmap.off == 0 && 0 <= $i + 1 && $i + 1 <= len(c.$arr) && unchanged(c.$arr) && unchanged(c.$bm) && unchanged(c.$runs) && c.$bm == old(c.$bm) && c.$runs == old(c.$runs) && c.$arr == old(c.$arr) && c.flags == old(c.flags) && c.typeID == old(c.typeID) && c.n == old(c.n)
 //@   loop 1 invariant forall x :: u16(x) ==> (bit(bitmap[x / 64], x % 64) <==> (exists k :: 0 <= k && k <= $i && c.$arr[k] == x))
 //@   loop 1 decreases len(c.$arr) - $i
+//@   ensures result != nil ==> (result.$arr.ref == 0 || result.$arr.ref == old(c.$arr.ref) || fresh(result.$arr)) && (result.$runs.ref == 0 || result.$runs.ref == old(c.$runs.ref) || fresh(result.$runs)) && (result.$bm.ref == 0 || result.$bm.ref == old(c.$bm.ref) || fresh(result.$bm))
+//@   ensures result == nil || result == c || fresh(result)
+//@   ensures (old(c.flags) & 2) != 0 ==> c.flags == old(c.flags) && c.typeID == old(c.typeID) && c.n == old(c.n) && c.$arr == old(c.$arr) && c.$runs == old(c.$runs) && c.$bm == old(c.$bm) && unchanged(c.$arr) && unchanged(c.$runs) && unchanged(c.$bm)
 
 // arrayAdd: adds exactly v; converts to a bitmap container at ArrayMaxSize.
 //@ contract (*Container).arrayAdd props C01,C02,C03
 //@   requires wfArrN(c)
 //@   modifies c.flags, c.pointer, c.len, c.cap, c.data, c.typeID, c.n, c.$arr, c.$runs, c.$bm, elems(c.$arr), elems(c.$runs), elems(c.$bm)
-//@   ensures result0 != nil ==> (result0.$arr.ref == 0 || result0.$arr.ref == old(c.$arr.ref) || fresh(result0.$arr)) && (result0.$runs.ref == 0 || result0.$runs.ref == old(c.$runs.ref) || fresh(result0.$runs)) && (result0.$bm.ref == 0 || result0.$bm.ref == old(c.$bm.ref) || fresh(result0.$bm))
-//@   ensures result0 == nil || result0 == c || fresh(result0)
 //@   ensures result0 != nil
 //@   ensures result1 <==> !old(memArr(c.$arr, v))
 //@   ensures !result1 ==> result0 == c && result0.n == old(c.n) && c.$arr == old(c.$arr) && unchanged(c.$arr) && c.typeID == 1
@@ -51,13 +50,15 @@ package roaring
 //@   ensures forall x :: u16(x) && old(memArr(c.$arr, x)) ==> mem(result0, x)
 //@   ensures forall x :: u16(x) && mem(result0, x) ==> (x == v || old(memArr(c.$arr, x)))
 //@   ensures (old(c.flags) & 2) != 0 && result1 ==> fresh(result0)
+//@   ensures result0 != nil ==> (result0.$arr.ref == 0 || result0.$arr.ref == old(c.$arr.ref) || fresh(result0.$arr)) && (result0.$runs.ref == 0 || result0.$runs.ref == old(c.$runs.ref) || fresh(result0.$runs)) && (result0.$bm.ref == 0 || result0.$bm.ref == old(c.$bm.ref) || fresh(result0.$bm))
+//@   ensures result0 == nil || result0 == c || fresh(result0)
+// a frozen receiver (shared with clones, rows handed to callers, mapped data) is left exactly as it was
+//@   ensures (old(c.flags) & 2) != 0 ==> c.flags == old(c.flags) && c.typeID == old(c.typeID) && c.n == old(c.n) && c.$arr == old(c.$arr) && c.$runs == old(c.$runs) && c.$bm == old(c.$bm) && unchanged(c.$arr) && unchanged(c.$runs) && unchanged(c.$bm)
 
 // arrayRemove: removes exactly v; the last value leaves a nil container.
 //@ contract (*Container).arrayRemove props C01,C02,C03
 //@   requires wfArrN(c)
 //@   modifies c.flags, c.pointer, c.len, c.cap, c.data, c.typeID, c.n, c.$arr, c.$runs, c.$bm, elems(c.$arr), elems(c.$runs), elems(c.$bm)
-//@   ensures result0 != nil ==> (result0.$arr.ref == 0 || result0.$arr.ref == old(c.$arr.ref) || fresh(result0.$arr)) && (result0.$runs.ref == 0 || result0.$runs.ref == old(c.$runs.ref) || fresh(result0.$runs)) && (result0.$bm.ref == 0 || result0.$bm.ref == old(c.$bm.ref) || fresh(result0.$bm))
-//@   ensures result0 == nil || result0 == c || fresh(result0)
 //@   ensures result1 <==> old(memArr(c.$arr, v))
 //@   ensures !result1 ==> result0 == c && result0.n == old(c.n) && c.$arr == old(c.$arr) && unchanged(c.$arr) && c.typeID == 1
 //@   ensures result1 && old(c.n) == 1 ==> result0 == nil
@@ -69,6 +70,9 @@ package roaring
 //@   ensures result0 != nil && result1 ==> (forall i :: 1 <= i && i < old(len(c.$arr)) && old(c.$arr[i]) > v ==> result0.$arr[i-1] == old(c.$arr[i]))
 //@   ensures result0 != nil ==> (forall x :: u16(x) && x != v && old(memArr(c.$arr, x)) ==> memArr(result0.$arr, x))
 //@   ensures (old(c.flags) & 2) != 0 && result1 && result0 != nil ==> fresh(result0)
+//@   ensures result0 != nil ==> (result0.$arr.ref == 0 || result0.$arr.ref == old(c.$arr.ref) || fresh(result0.$arr)) && (result0.$runs.ref == 0 || result0.$runs.ref == old(c.$runs.ref) || fresh(result0.$runs)) && (result0.$bm.ref == 0 || result0.$bm.ref == old(c.$bm.ref) || fresh(result0.$bm))
+//@   ensures result0 == nil || result0 == c || fresh(result0)
+//@   ensures (old(c.flags) & 2) != 0 ==> c.flags == old(c.flags) && c.typeID == old(c.typeID) && c.n == old(c.n) && c.$arr == old(c.$arr) && c.$runs == old(c.$runs) && c.$bm == old(c.$bm) && unchanged(c.$arr) && unchanged(c.$runs) && unchanged(c.$bm)
 
 // bitmapToArray enumerates the set bits with the lowest-set-bit idiom
 // (word & -word, popcount(t-1)); its functional contract is assumed here (the
@@ -79,17 +83,15 @@ package roaring
 //@   ensures forall x :: u16(x) ==> (memArr(result.$arr, x) <==> old(memBm(c.$bm, x)))
 //@   ensures (old(c.flags) & 2) != 0 ==> fresh(result) && result.flags == 0 && c.typeID == 2 && c.$bm == old(c.$bm) && unchanged(c.$bm)
 //@   ensures (old(c.flags) & 2) == 0 ==> result == c
+//@   modifies c.typeID, c.flags, c.$arr, c.n, c.len, c.cap, c.pointer, c.data
 //@   ensures result != nil ==> (result.$arr.ref == 0 || result.$arr.ref == old(c.$arr.ref) || fresh(result.$arr)) && (result.$runs.ref == 0 || result.$runs.ref == old(c.$runs.ref) || fresh(result.$runs)) && (result.$bm.ref == 0 || result.$bm.ref == old(c.$bm.ref) || fresh(result.$bm))
 //@   ensures result == nil || result == c || fresh(result)
-//@   modifies c.typeID, c.flags, c.$arr, c.n, c.len, c.cap, c.pointer, c.data
 
 // bitmapRemove: removes exactly v; the last value leaves a nil container; at
 // ArrayMaxSize the container is converted to an array.
 //@ contract (*Container).bitmapRemove props C01,C02,C03
 //@   requires wfBm(c) && 1 <= c.n && c.n < 2147483647
 //@   modifies c.flags, c.pointer, c.len, c.cap, c.data, c.typeID, c.n, c.$arr, c.$runs, c.$bm, elems(c.$arr), elems(c.$runs), elems(c.$bm)
-//@   ensures result0 != nil ==> (result0.$arr.ref == 0 || result0.$arr.ref == old(c.$arr.ref) || fresh(result0.$arr)) && (result0.$runs.ref == 0 || result0.$runs.ref == old(c.$runs.ref) || fresh(result0.$runs)) && (result0.$bm.ref == 0 || result0.$bm.ref == old(c.$bm.ref) || fresh(result0.$bm))
-//@   ensures result0 == nil || result0 == c || fresh(result0)
 //@   ensures result1 <==> old(memBm(c.$bm, v))
 //@   ensures !result1 ==> result0 == c && result0.n == old(c.n) && c.$bm == old(c.$bm) && unchanged(c.$bm) && c.typeID == 2
 //@   ensures result1 && old(c.n) == 1 ==> result0 == nil
@@ -97,19 +99,24 @@ package roaring
 //@   ensures result0 != nil ==> u16(v) && !mem(result0, v)
 //@   ensures result0 != nil ==> (forall x :: u16(x) && x != v ==> (mem(result0, x) <==> old(memBm(c.$bm, x))))
 //@   ensures (old(c.flags) & 2) != 0 && result1 && result0 != nil ==> fresh(result0)
+//@   ensures result0 != nil ==> (result0.$arr.ref == 0 || result0.$arr.ref == old(c.$arr.ref) || fresh(result0.$arr)) && (result0.$runs.ref == 0 || result0.$runs.ref == old(c.$runs.ref) || fresh(result0.$runs)) && (result0.$bm.ref == 0 || result0.$bm.ref == old(c.$bm.ref) || fresh(result0.$bm))
+//@   ensures result0 == nil || result0 == c || fresh(result0)
+//@   ensures (old(c.flags) & 2) != 0 ==> c.flags == old(c.flags) && c.typeID == old(c.typeID) && c.n == old(c.n) && c.$arr == old(c.$arr) && c.$runs == old(c.$runs) && c.$bm == old(c.$bm) && unchanged(c.$arr) && unchanged(c.$runs) && unchanged(c.$bm)
 
 // runAdd: adds exactly v to a run container (extend a run, merge two runs, or
 // insert a new one).
 //@ contract (*Container).runAdd props C01,C02,C03
 //@   requires wfRuns(c) && 0 <= c.n && c.n < 2147483647 && (len(c.$runs) == 0 ==> c.n == 0)
 //@   modifies c.flags, c.pointer, c.len, c.cap, c.data, c.typeID, c.n, c.$arr, c.$runs, c.$bm, elems(c.$arr), elems(c.$runs), elems(c.$bm)
-//@   ensures result0 != nil ==> (result0.$arr.ref == 0 || result0.$arr.ref == old(c.$arr.ref) || fresh(result0.$arr)) && (result0.$runs.ref == 0 || result0.$runs.ref == old(c.$runs.ref) || fresh(result0.$runs)) && (result0.$bm.ref == 0 || result0.$bm.ref == old(c.$bm.ref) || fresh(result0.$bm))
-//@   ensures result0 == nil || result0 == c || fresh(result0)
 //@   ensures result0 != nil && isRun(result0)
 //@   ensures result1 <==> !old(memRuns(c.$runs, v))
 //@   ensures !result1 ==> result0 == c && result0.n == old(c.n) && c.$runs == old(c.$runs) && unchanged(c.$runs) && c.typeID == 3
 //@   ensures result1 ==> result0.n == old(c.n) + 1
 //@   ensures (old(c.flags) & 2) != 0 && result1 ==> fresh(result0)
+//@   ensures result0 != nil ==> (result0.$arr.ref == 0 || result0.$arr.ref == old(c.$arr.ref) || fresh(result0.$arr)) && (result0.$runs.ref == 0 || result0.$runs.ref == old(c.$runs.ref) || fresh(result0.$runs)) && (result0.$bm.ref == 0 || result0.$bm.ref == old(c.$bm.ref) || fresh(result0.$bm))
+//@   ensures result0 == nil || result0 == c || fresh(result0)
+// a frozen receiver (shared with clones, rows handed to callers, mapped data) is left exactly as it was
+//@   ensures (old(c.flags) & 2) != 0 ==> c.flags == old(c.flags) && c.typeID == old(c.typeID) && c.n == old(c.n) && c.$arr == old(c.$arr) && c.$runs == old(c.$runs) && c.$bm == old(c.$bm) && unchanged(c.$arr) && unchanged(c.$runs) && unchanged(c.$bm)
 //@   ensures memRuns(result0.$runs, v)
 //@   ensures sortedRuns(result0.$runs)
 //@   ensures forall i :: 0 <= i && i < old(len(c.$runs)) ==> ((i < len(result0.$runs) && covers(result0.$runs[i], old(c.$runs[i]))) || (i >= 1 && i - 1 < len(result0.$runs) && covers(result0.$runs[i-1], old(c.$runs[i]))) || (i + 1 < len(result0.$runs) && covers(result0.$runs[i+1], old(c.$runs[i]))))
@@ -120,8 +127,6 @@ package roaring
 //@ contract (*Container).runRemove props C01,C02,C03
 //@   requires wfRuns(c) && 1 <= c.n && c.n < 2147483647
 //@   modifies c.flags, c.pointer, c.len, c.cap, c.data, c.typeID, c.n, c.$arr, c.$runs, c.$bm, elems(c.$arr), elems(c.$runs), elems(c.$bm)
-//@   ensures result0 != nil ==> (result0.$arr.ref == 0 || result0.$arr.ref == old(c.$arr.ref) || fresh(result0.$arr)) && (result0.$runs.ref == 0 || result0.$runs.ref == old(c.$runs.ref) || fresh(result0.$runs)) && (result0.$bm.ref == 0 || result0.$bm.ref == old(c.$bm.ref) || fresh(result0.$bm))
-//@   ensures result0 == nil || result0 == c || fresh(result0)
 //@   ensures result1 <==> old(memRuns(c.$runs, v))
 //@   ensures !result1 ==> result0 == c && result0.n == old(c.n) && c.$runs == old(c.$runs) && unchanged(c.$runs) && c.typeID == 3
 //@   ensures result1 && old(c.n) == 1 ==> result0 == nil
@@ -132,6 +137,9 @@ package roaring
 //@   ensures result0 != nil ==> (forall x :: u16(x) && memRuns(result0.$runs, x) ==> old(memRuns(c.$runs, x)))
 //@   ensures result0 != nil && result1 ==> (forall i :: 0 <= i && i < old(len(c.$runs)) ==> (old(c.$runs[i]).last < v ==> result0.$runs[i] == old(c.$runs[i])) && (old(c.$runs[i]).start > v ==> ((i < len(result0.$runs) && result0.$runs[i] == old(c.$runs[i])) || (i >= 1 && result0.$runs[i-1] == old(c.$runs[i])) || (i + 1 < len(result0.$runs) && result0.$runs[i+1] == old(c.$runs[i])))))
 //@   ensures result0 != nil ==> (forall x :: u16(x) && x != v && old(memRuns(c.$runs, x)) ==> memRuns(result0.$runs, x))
+//@   ensures result0 != nil ==> (result0.$arr.ref == 0 || result0.$arr.ref == old(c.$arr.ref) || fresh(result0.$arr)) && (result0.$runs.ref == 0 || result0.$runs.ref == old(c.$runs.ref) || fresh(result0.$runs)) && (result0.$bm.ref == 0 || result0.$bm.ref == old(c.$bm.ref) || fresh(result0.$bm))
+//@   ensures result0 == nil || result0 == c || fresh(result0)
+//@   ensures (old(c.flags) & 2) != 0 ==> c.flags == old(c.flags) && c.typeID == old(c.typeID) && c.n == old(c.n) && c.$arr == old(c.$arr) && c.$runs == old(c.$runs) && c.$bm == old(c.$bm) && unchanged(c.$arr) && unchanged(c.$runs) && unchanged(c.$bm)
 
 // wfMut: representation well-formed and n coherent where the kernels rely on it.
 // (upper bounds on n and on the number of runs are not inductive without the
@@ -145,8 +153,6 @@ package roaring
 //@ contract (*Container).add props C01,C02,C03
 //@   requires c == nil || (wfMut(c) && roomOK(c))
 //@   modifies c.flags, c.pointer, c.len, c.cap, c.data, c.typeID, c.n, c.$arr, c.$runs, c.$bm, elems(c.$arr), elems(c.$runs), elems(c.$bm)
-//@   ensures newC != nil ==> (newC.$arr.ref == 0 || newC.$arr.ref == old(c.$arr.ref) || fresh(newC.$arr)) && (newC.$runs.ref == 0 || newC.$runs.ref == old(c.$runs.ref) || fresh(newC.$runs)) && (newC.$bm.ref == 0 || newC.$bm.ref == old(c.$bm.ref) || fresh(newC.$bm))
-//@   ensures newC == nil || newC == c || fresh(newC)
 //@   ensures newC != nil && mem(newC, v)
 //@   ensures wfMut(newC)
 //@   ensures added <==> !old(mem(c, v))
@@ -156,6 +162,9 @@ package roaring
 //@   ensures forall x :: u16(x) && old(mem(c, x)) ==> mem(newC, x)
 //@   ensures forall x :: u16(x) && mem(newC, x) ==> (x == v || old(mem(c, x)))
 //@   ensures c != nil && (old(c.flags) & 2) != 0 && added ==> fresh(newC)
+//@   ensures newC != nil ==> (newC.$arr.ref == 0 || newC.$arr.ref == old(c.$arr.ref) || fresh(newC.$arr)) && (newC.$runs.ref == 0 || newC.$runs.ref == old(c.$runs.ref) || fresh(newC.$runs)) && (newC.$bm.ref == 0 || newC.$bm.ref == old(c.$bm.ref) || fresh(newC.$bm))
+//@   ensures newC == nil || newC == c || fresh(newC)
+//@   ensures c != nil && (old(c.flags) & 2) != 0 ==> c.flags == old(c.flags) && c.typeID == old(c.typeID) && c.n == old(c.n) && c.$arr == old(c.$arr) && c.$runs == old(c.$runs) && c.$bm == old(c.$bm) && unchanged(c.$arr) && unchanged(c.$runs) && unchanged(c.$bm)
 
 //@ contract (*Container).remove props C01,C02,C03
 // (n == 1 means a singleton: the part of n-coherence, n == |set|, that returning
@@ -176,3 +185,4 @@ package roaring
 //@   ensures forall x :: u16(x) && mem(newC, x) ==> old(mem(c, x))
 //@   ensures forall x :: u16(x) && x != v && old(mem(c, x)) ==> mem(newC, x)
 //@   ensures c != nil && (old(c.flags) & 2) != 0 && removed && newC != nil ==> fresh(newC)
+//@   ensures c != nil && (old(c.flags) & 2) != 0 ==> c.flags == old(c.flags) && c.typeID == old(c.typeID) && c.n == old(c.n) && c.$arr == old(c.$arr) && c.$runs == old(c.$runs) && c.$bm == old(c.$bm) && unchanged(c.$arr) && unchanged(c.$runs) && unchanged(c.$bm)
